@@ -26,9 +26,36 @@
 //! calls resolve exactly when the receiver is literally `self` and the impl'd type has a method of
 //! that name, otherwise to *every* crate method of that name; operators add edges to the
 //! corresponding trait method names (`==` -> `eq`, ...), `for` adds `into_iter`/`next`, `?` adds
-//! `from`.
+//! `from`.  A receiver that is a parameter or `let` binding with a declared type whose head (through
+//! `&`/`&mut`) is a scanned type resolves like `self` (only when the name has no other binding in
+//! the function).  A path to a scanned function that is used as a value (`.map(Self::f)`) is an edge.
+//!
+//! Implicit drops.  No `drop` call is written where a value goes out of scope, is overwritten, or is
+//! dropped while a panic unwinds.  `drop_glue(T)` is a pseudo function per scanned type `T` whose
+//! drop runs code of the scanned files: it calls `T::drop` (the `impl Drop for T`, if any) and the
+//! glue of every scanned type that occurs by value in a field of `T`.  A body gets an edge to
+//! `drop_glue(T)` for every `T` a value of which may exist in it, regardless of control flow (so
+//! scope ends, early returns, `?`, overwriting assignments and unwinding are all covered):
+//!   (a) a struct literal `T { .. }` / `Self { .. }`, a tuple-struct constructor `T(..)`, a unit struct `T`;
+//!   (b) a call or method call (operators, `for`, `?` included): every type that occurs by value in
+//!       the declared return type of every scanned function the edge resolves to (`Self` and
+//!       `Self::Assoc` resolved; through `Option`, `Result`, tuples, `Box`, any generic argument).
+//!       A callee whose return type hides a type (`impl Trait`, `dyn Trait`) passes on every
+//!       `drop_glue` edge of its own body (fixed point);
+//!   (c) a parameter taken by value (a by-value `self` included), a `let` or closure parameter with
+//!       a declared type: every type that occurs by value in the declared type;
+//!   (d) fields: through `drop_glue`;
+//!   (e) a value copied out from behind a pointer by foreign code on the read-only list
+//!       (`ptr::read`, `.read()`, `.assume_init_read()`, `.cloned()`, `.to_owned()`, `.clone()` that
+//!       resolves to no scanned function, `Default::default()`): its type is not written anywhere, so
+//!       every droppable type reachable (through fields, also behind pointers) from a type the
+//!       function mentions is counted.  (`take`, `replace`, `swap`, `pop`, `remove`, ... are write
+//!       primitives themselves.)
+//! Type parameters (`K`, `V`, `S`, ...) are user types: their drops are user code, not edges.
+//! Not an edge, recorded as `fresh_drops`: the implicit drop of a value returned by
+//! `LruCache::clone` (it is the cache clone built; see the clone split below).
 
-use crate::{ts, CloneAnalysis, FnDecl, Recv, CACHE_MEMORY_TYPES, CACHE_TYPE};
+use crate::{head_through_refs, owned_idents, ts, CloneAnalysis, FnDecl, GlueNode, Owned, Recv, TypeDef, CACHE_MEMORY_TYPES, CACHE_TYPE};
 use std::collections::{BTreeMap, BTreeSet};
 use syn::spanned::Spanned;
 use syn::visit::{self, Visit};
@@ -96,6 +123,13 @@ pub const READ_PATHS: &[&str] = &[
     "ManuallyDrop::new", "core::mem::size_of", "std::mem::size_of",
 ];
 
+/// foreign calls on the read-only lists that can hand out an owned value whose type is written nowhere
+pub const OWNING_READ_METHODS: &[&str] = &["read", "read_unaligned", "assume_init_read", "clone", "cloned", "to_owned", "unwrap_or_default"];
+pub const OWNING_READ_PATHS: &[&str] = &["ptr::read", "ptr::read_unaligned", "Default::default"];
+
+pub const GLUE_PREFIX: &str = "drop_glue(";
+pub const DROPS_SUFFIX: &str = "@drops";
+
 pub const READ_MACROS: &[&str] = &[
     "write", "writeln", "format", "format_args", "print", "println", "eprint", "eprintln", "assert", "assert_eq",
     "assert_ne", "debug_assert", "debug_assert_eq", "debug_assert_ne", "panic", "unreachable", "unimplemented", "todo",
@@ -111,12 +145,39 @@ pub struct Index {
     typed: BTreeMap<(String, String), Vec<String>>,
     free: BTreeMap<String, Vec<String>>,
     types: BTreeSet<String>,
+    /// types whose drop runs code of the scanned files
+    glue: BTreeSet<String>,
+    /// type definitions of the scanned files (structs, enums, aliases)
+    typedef_names: BTreeSet<String>,
+    enum_names: BTreeSet<String>,
+    /// scanned type -> droppable types reachable through any mention in fields (itself included)
+    glue_reach_any: BTreeMap<String, Vec<String>>,
+    /// qualified name -> (types by value in the return type, hidden type, head of the return type)
+    ret: BTreeMap<String, (Vec<String>, bool, Option<String>)>,
+    /// `<LruCache as Clone>::clone`
+    clone_q: Option<String>,
 }
 
-fn build_index(decls: &[FnDecl], struct_names: &[String]) -> Index {
-    let mut ix = Index { methods: BTreeMap::new(), any: BTreeMap::new(), typed: BTreeMap::new(), free: BTreeMap::new(), types: struct_names.iter().cloned().collect() };
+fn build_index(decls: &[FnDecl], struct_names: &[String], dm: &DropModel) -> Index {
+    let mut ix = Index {
+        methods: BTreeMap::new(),
+        any: BTreeMap::new(),
+        typed: BTreeMap::new(),
+        free: BTreeMap::new(),
+        types: struct_names.iter().cloned().collect(),
+        glue: dm.glue.clone(),
+        typedef_names: dm.names.clone(),
+        enum_names: dm.enums.clone(),
+        glue_reach_any: dm.reach_any.clone(),
+        ret: BTreeMap::new(),
+        clone_q: None,
+    };
     for d in decls {
         let f = &d.info;
+        ix.ret.insert(f.qname.clone(), (f.ret_owned.clone(), f.ret_opaque, f.ret_head.clone()));
+        if f.self_type.as_deref() == Some(CACHE_TYPE) && f.trait_name.as_deref() == Some("Clone") && f.name == "clone" && ix.clone_q.is_none() {
+            ix.clone_q = Some(f.qname.clone());
+        }
         ix.any.entry(f.name.clone()).or_default().push(f.qname.clone());
         if f.recv != Recv::None {
             ix.methods.entry(f.name.clone()).or_default().push((f.qname.clone(), f.params.len()));
@@ -142,6 +203,176 @@ impl Index {
         let all = self.methods_named(name, nargs);
         self.typed.get(&(ty.to_string(), name.to_string())).map(|v| v.iter().filter(|q| all.contains(q)).cloned().collect()).unwrap_or_default()
     }
+}
+
+/// the scanned types a literal path names: `T { .. }`, `Self { .. }`, `m::T { .. }`, `E::Variant { .. }`
+fn literal_types(path: &syn::Path, self_type: &Option<String>, names: &BTreeSet<String>) -> Vec<String> {
+    let mut v = vec![];
+    for seg in &path.segments {
+        let id = seg.ident.to_string();
+        let ty = if id == "Self" { self_type.clone().unwrap_or_default() } else { id };
+        if names.contains(&ty) && !v.contains(&ty) {
+            v.push(ty);
+        }
+    }
+    v
+}
+
+pub fn glue_node(t: &str) -> String {
+    format!("{}{})", GLUE_PREFIX, t)
+}
+
+// ------------------------------------------------------------------------------------------------
+// drop glue: which types run code of the scanned files when a value is dropped
+// ------------------------------------------------------------------------------------------------
+
+pub struct DropModel {
+    pub enums: BTreeSet<String>,
+    pub names: BTreeSet<String>,
+    pub glue: BTreeSet<String>,
+    pub nodes: Vec<GlueNode>,
+    pub reach_any: BTreeMap<String, Vec<String>>,
+}
+
+pub fn drop_model(decls: &[FnDecl], typedefs: &[TypeDef], warnings: &mut Vec<String>) -> DropModel {
+    // merge definitions of the same name (inline modules are flattened)
+    let mut order: Vec<String> = vec![];
+    let mut owned: BTreeMap<String, Vec<String>> = BTreeMap::new();
+    let mut any: BTreeMap<String, Vec<String>> = BTreeMap::new();
+    let mut opaque: BTreeSet<String> = BTreeSet::new();
+    for t in typedefs {
+        if !order.contains(&t.name) {
+            order.push(t.name.clone());
+        }
+        owned.entry(t.name.clone()).or_default().extend(t.owned.iter().cloned());
+        any.entry(t.name.clone()).or_default().extend(t.any.iter().cloned());
+        any.entry(t.name.clone()).or_default().extend(t.owned.iter().cloned());
+        if t.opaque {
+            opaque.insert(t.name.clone());
+        }
+    }
+    // Drop impls of the scanned files
+    let mut impls: BTreeMap<String, Vec<String>> = BTreeMap::new();
+    for d in decls {
+        let f = &d.info;
+        if f.trait_name.as_deref() == Some("Drop") && f.name == "drop" {
+            match &f.self_type {
+                Some(t) => {
+                    if !order.contains(t) {
+                        warnings.push(format!("{}:{}: `impl Drop for {}`: the type is not defined in the scanned files; its fields are not known", f.file, f.line, t));
+                        order.push(t.clone());
+                    }
+                    impls.entry(t.clone()).or_default().push(f.qname.clone());
+                }
+                None => warnings.push(format!("{}:{}: `impl Drop` for a type without a name: not an edge of any drop glue", f.file, f.line)),
+            }
+        }
+    }
+    let names: BTreeSet<String> = order.iter().cloned().collect();
+    // least fixed point: a type needs glue when it has a Drop impl, owns a hidden type, or owns a type that needs glue
+    let mut glue: BTreeSet<String> = impls.keys().cloned().collect();
+    if !impls.is_empty() {
+        glue.extend(opaque.iter().cloned());
+    }
+    loop {
+        let mut grew = false;
+        for t in &order {
+            if !glue.contains(t) && owned.get(t).map(|v| v.iter().any(|u| glue.contains(u))).unwrap_or(false) {
+                glue.insert(t.clone());
+                grew = true;
+            }
+        }
+        if !grew {
+            break;
+        }
+    }
+    let mut nodes = vec![];
+    for t in &order {
+        if !glue.contains(t) {
+            continue;
+        }
+        let mut callees: Vec<String> = impls.get(t).cloned().unwrap_or_default();
+        let push = |c: String, callees: &mut Vec<String>| {
+            if !callees.contains(&c) {
+                callees.push(c)
+            }
+        };
+        for u in owned.get(t).cloned().unwrap_or_default() {
+            if u != *t && glue.contains(&u) {
+                push(glue_node(&u), &mut callees);
+            }
+        }
+        if opaque.contains(t) {
+            // a hidden type is owned: any Drop impl of the scanned files may run
+            for u in impls.keys() {
+                if u != t {
+                    push(glue_node(u), &mut callees);
+                }
+            }
+        }
+        nodes.push(GlueNode { ty: t.clone(), node: glue_node(t), drop_impl: impls.get(t).and_then(|v| v.first().cloned()), callees });
+    }
+    // droppable types reachable from a type through any mention in fields
+    let mut reach_any = BTreeMap::new();
+    for t in &order {
+        let mut seen: BTreeSet<String> = BTreeSet::new();
+        let mut todo = vec![t.clone()];
+        while let Some(x) = todo.pop() {
+            if !seen.insert(x.clone()) {
+                continue;
+            }
+            for u in any.get(&x).cloned().unwrap_or_default() {
+                if names.contains(&u) && !seen.contains(&u) {
+                    todo.push(u);
+                }
+            }
+        }
+        let v: Vec<String> = order.iter().filter(|u| seen.contains(*u) && glue.contains(*u)).cloned().collect();
+        reach_any.insert(t.clone(), v);
+    }
+    let enums: BTreeSet<String> = typedefs.iter().filter(|t| t.kind == "enum").map(|t| t.name.clone()).collect();
+    DropModel { enums, names, glue, nodes, reach_any }
+}
+
+/// parameters and `let`/closure bindings with a declared type: name -> (head through references,
+/// behind a reference); `None` when the name is bound more than once or without a type
+pub struct TypedEnv {
+    map: BTreeMap<String, Option<(String, bool)>>,
+}
+
+struct TypedV {
+    binds: BTreeMap<String, Vec<Option<(String, bool)>>>,
+}
+impl<'ast> Visit<'ast> for TypedV {
+    fn visit_pat_type(&mut self, pt: &'ast syn::PatType) {
+        if let syn::Pat::Ident(pi) = &*pt.pat {
+            if pi.subpat.is_none() && pi.by_ref.is_none() {
+                self.binds.entry(pi.ident.to_string()).or_default().push(head_through_refs(&pt.ty));
+                return;
+            }
+        }
+        visit::visit_pat_type(self, pt);
+    }
+    fn visit_pat_ident(&mut self, p: &'ast syn::PatIdent) {
+        self.binds.entry(p.ident.to_string()).or_default().push(None);
+        visit::visit_pat_ident(self, p);
+    }
+}
+
+pub fn typed_env(sig: &syn::Signature, body: &syn::Block) -> TypedEnv {
+    let mut v = TypedV { binds: BTreeMap::new() };
+    for a in &sig.inputs {
+        if let syn::FnArg::Typed(pt) = a {
+            v.visit_pat_type(pt);
+        }
+    }
+    v.visit_block(body);
+    let mut map = BTreeMap::new();
+    for (k, b) in v.binds {
+        let one = if b.len() == 1 { b[0].clone() } else { None };
+        map.insert(k, one);
+    }
+    TypedEnv { map }
 }
 
 fn strip(e: &syn::Expr) -> &syn::Expr {
@@ -174,9 +405,116 @@ struct Ctx<'a> {
     self_type: Option<String>,
     recv: Recv,
     file: String,
+    typed: TypedEnv,
 }
 
 impl<'a> Ctx<'a> {
+    /// the scanned type a method-call receiver is known to have: `self`, or a binding with a declared type
+    fn recv_type(&self, recv: &syn::Expr) -> Option<String> {
+        let id = path_ident(recv)?;
+        if id == "self" {
+            return self.self_type.clone();
+        }
+        match self.typed.map.get(&id) {
+            Some(Some((h, _))) if self.ix.types.contains(h) => Some(h.clone()),
+            _ => None,
+        }
+    }
+    /// scanned functions a method call may dispatch to
+    fn resolve_method(&self, recv: &syn::Expr, name: &str, nargs: usize) -> Vec<String> {
+        if let Some(t) = self.recv_type(recv) {
+            let v = self.ix.typed_method(&t, name, nargs);
+            if !v.is_empty() {
+                return v;
+            }
+        }
+        self.ix.methods_named(name, nargs)
+    }
+    /// scanned functions a path names, when the path resolves exactly (`T::f`, `Self::f`, a free function)
+    fn resolve_path_exact(&self, p: &syn::ExprPath, locals: &BTreeSet<String>) -> Option<Vec<String>> {
+        if p.qself.is_some() {
+            return None;
+        }
+        let segs: Vec<String> = p.path.segments.iter().map(|s| s.ident.to_string()).collect();
+        let last = segs.last()?.clone();
+        if segs.len() == 1 {
+            if locals.contains(&last) {
+                return None;
+            }
+            return self.ix.free.get(&last).cloned();
+        }
+        let ty = if segs[segs.len() - 2] == "Self" { self.self_type.clone().unwrap_or_default() } else { segs[segs.len() - 2].clone() };
+        if self.ix.types.contains(&ty) {
+            return self.ix.typed.get(&(ty, last)).cloned();
+        }
+        None
+    }
+    /// head of the static type of an expression, when it can be read off declarations
+    fn expr_head(&self, e: &syn::Expr, locals: &BTreeSet<String>) -> Option<String> {
+        match strip(e) {
+            syn::Expr::MethodCall(m) => {
+                // only when the receiver's type is known (a call resolved by name may dispatch to foreign code)
+                let t = self.recv_type(&m.receiver)?;
+                let c = self.ix.typed_method(&t, &m.method.to_string(), m.args.len());
+                if c.len() == 1 {
+                    self.ix.ret.get(&c[0]).and_then(|r| r.2.clone())
+                } else {
+                    None
+                }
+            }
+            syn::Expr::Call(c) => match strip(&c.func) {
+                syn::Expr::Path(p) => {
+                    let v = self.resolve_path_exact(p, locals)?;
+                    if v.len() == 1 {
+                        self.ix.ret.get(&v[0]).and_then(|r| r.2.clone())
+                    } else {
+                        None
+                    }
+                }
+                _ => None,
+            },
+            syn::Expr::Path(_) => {
+                let id = path_ident(e)?;
+                if id == "self" {
+                    return if self.recv == Recv::Val { self.self_type.clone() } else { None };
+                }
+                match self.typed.map.get(&id) {
+                    Some(Some((h, false))) => Some(h.clone()),
+                    _ => None,
+                }
+            }
+            _ => None,
+        }
+    }
+    /// what `for _ in e` calls: `IntoIterator::into_iter(e)` and then `next` of the iterator.  When the type of `e` is
+    /// a scanned type the calls resolve on it (an iterator is its own `into_iter`); otherwise by name.
+    fn for_targets(&self, e: &syn::Expr, locals: &BTreeSet<String>) -> Vec<String> {
+        if let Some(h) = self.expr_head(e, locals) {
+            if self.ix.types.contains(&h) {
+                let into = self.ix.typed_method(&h, "into_iter", 0);
+                let next = self.ix.typed_method(&h, "next", 0);
+                if !next.is_empty() {
+                    // `h` is an iterator: the blanket `impl<I: Iterator> IntoIterator for I` is the identity
+                    let mut v = into;
+                    v.extend(next);
+                    return v;
+                }
+                if into.len() == 1 {
+                    if let Some(Some(h2)) = self.ix.ret.get(&into[0]).map(|r| r.2.clone()) {
+                        let next2 = self.ix.typed_method(&h2, "next", 0);
+                        if !next2.is_empty() {
+                            let mut v = into;
+                            v.extend(next2);
+                            return v;
+                        }
+                    }
+                }
+            }
+        }
+        let mut v = self.ix.methods_named("into_iter", 0);
+        v.extend(self.ix.methods_named("next", 0));
+        v
+    }
     fn classify_place(&self, e: &syn::Expr) -> Place {
         let e = strip(e);
         match e {
@@ -225,6 +563,35 @@ struct BodyV<'a> {
     writes: Vec<String>,
     own: Vec<String>,
     warns: Vec<String>,
+    /// why the body has an edge to `drop_glue(T)`
+    drops: Vec<String>,
+    /// values returned by `LruCache::clone`: dropping them writes into the memory that clone allocated
+    fresh_drops: Vec<String>,
+    /// callees whose return type hides a type: their `drop_glue` edges are inherited (fixed point in `analyse`)
+    opaque_calls: Vec<String>,
+    /// foreign calls that copy a value of unknown type out from behind a pointer
+    owning_reads: Vec<(usize, String)>,
+}
+
+fn new_body_v<'a>(cx: &'a Ctx<'a>, locals: BTreeSet<String>) -> BodyV<'a> {
+    BodyV { cx, locals, callees: vec![], ext: vec![], writes: vec![], own: vec![], warns: vec![], drops: vec![], fresh_drops: vec![], opaque_calls: vec![], owning_reads: vec![] }
+}
+
+/// scanned type names a function mentions anywhere (signature and body, expressions and types)
+struct MentionedV<'a> {
+    names: &'a BTreeSet<String>,
+    out: BTreeSet<String>,
+}
+impl<'a, 'ast> Visit<'ast> for MentionedV<'a> {
+    fn visit_path(&mut self, p: &'ast syn::Path) {
+        for s in &p.segments {
+            let id = s.ident.to_string();
+            if self.names.contains(&id) {
+                self.out.insert(id);
+            }
+        }
+        visit::visit_path(self, p);
+    }
 }
 
 struct LocalsV {
@@ -249,11 +616,53 @@ impl<'a> BodyV<'a> {
         self.warns.push(format!("{}:{}: in `{}`: {} - counted as a write primitive", self.cx.file, line, self.cx.qname, what));
         self.writes.push(format!("L{}: UNRECOGNISED {}", line, what));
     }
-    fn add_callees(&mut self, v: &[String]) {
+    fn add_callees(&mut self, line: usize, v: &[String]) {
         for q in v {
             if !self.callees.contains(q) {
                 self.callees.push(q.clone());
             }
+        }
+        self.ret_drops(line, v);
+    }
+    /// a value of type `ty` may exist in this body: it may be dropped here
+    fn drop_edge(&mut self, line: usize, ty: &str, why: &str) {
+        if self.cx.ix.glue.contains(ty) {
+            let n = glue_node(ty);
+            if !self.callees.contains(&n) {
+                self.callees.push(n);
+            }
+            let d = format!("L{}: {} - {}", line, ty, why);
+            if !self.drops.contains(&d) {
+                self.drops.push(d);
+            }
+        }
+    }
+    /// (b): the values the called functions return
+    fn ret_drops(&mut self, line: usize, cands: &[String]) {
+        for q in cands {
+            let Some((owned, opaque, _)) = self.cx.ix.ret.get(q).cloned() else { continue };
+            let is_clone = self.cx.ix.clone_q.as_deref() == Some(q.as_str());
+            for t in &owned {
+                if is_clone && t == CACHE_TYPE {
+                    let d = format!("L{}: {} returned by `{}`: the cache that clone built (fresh memory)", line, t, q);
+                    if !self.fresh_drops.contains(&d) {
+                        self.fresh_drops.push(d);
+                    }
+                } else {
+                    self.drop_edge(line, t, &format!("value returned by `{}`", q));
+                }
+            }
+            if opaque && !self.opaque_calls.contains(q) {
+                self.opaque_calls.push(q.clone());
+            }
+        }
+    }
+    /// (a)/(c): types that occur by value in a written type
+    fn type_drops(&mut self, line: usize, ty: &syn::Type, why: &str) {
+        let mut o = Owned::default();
+        owned_idents(ty, self.cx.self_type.as_deref(), &BTreeMap::new(), &mut o, 0);
+        for t in o.idents {
+            self.drop_edge(line, &t, why);
         }
     }
     fn add_ext(&mut self, s: String) {
@@ -261,9 +670,9 @@ impl<'a> BodyV<'a> {
             self.ext.push(s);
         }
     }
-    fn edge_by_name(&mut self, name: &str, nargs: usize) {
+    fn edge_by_name(&mut self, line: usize, name: &str, nargs: usize) {
         let v = self.cx.ix.methods_named(name, nargs);
-        self.add_callees(&v);
+        self.add_callees(line, &v);
     }
     fn place(&mut self, line: usize, p: Place) {
         match p {
@@ -277,28 +686,48 @@ impl<'a> BodyV<'a> {
             }
         }
     }
-    fn method_call(&mut self, line: usize, name: &str, recv_is_self: bool, nargs: usize) {
+    fn method_call(&mut self, line: usize, name: &str, recv: &syn::Expr, nargs: usize) {
         let is_w = WRITE_METHODS.contains(&name);
         if is_w {
             self.w(line, format!("call of mutator `.{}()`", name));
         }
-        let mut cands: Vec<String> = vec![];
-        if recv_is_self {
-            if let Some(t) = &self.cx.self_type {
-                cands = self.cx.ix.typed_method(t, name, nargs);
-            }
-        }
-        if cands.is_empty() {
-            cands = self.cx.ix.methods_named(name, nargs);
-        }
+        let cands = self.cx.resolve_method(recv, name, nargs);
         if cands.is_empty() {
             if READ_METHODS.contains(&name) {
                 self.add_ext(format!(".{}", name));
+                if OWNING_READ_METHODS.contains(&name) {
+                    self.owning_reads.push((line, format!(".{}()", name)));
+                }
             } else if !is_w {
                 self.unknown(line, format!("method `.{}()` is neither defined in the scanned files nor on the read-only list", name));
             }
         } else {
-            self.add_callees(&cands);
+            self.add_callees(line, &cands);
+        }
+    }
+    /// a path in value position (not the callee of a call): a function of the scanned files used as a value is as
+    /// good as called; a unit struct is a value of its type
+    fn path_value(&mut self, line: usize, p: &syn::ExprPath) {
+        if p.qself.is_some() {
+            return;
+        }
+        let segs: Vec<String> = p.path.segments.iter().map(|s| s.ident.to_string()).collect();
+        if segs.len() == 1 {
+            let id = &segs[0];
+            if self.locals.contains(id) || id == "self" {
+                return;
+            }
+            if self.cx.ix.typedef_names.contains(id) {
+                self.drop_edge(line, id, "unit struct / constructor used as a value");
+            }
+        }
+        if let Some(v) = self.cx.resolve_path_exact(p, &self.locals) {
+            self.add_callees(line, &v);
+        } else if segs.len() >= 2 {
+            let t = if segs[segs.len() - 2] == "Self" { self.cx.self_type.clone().unwrap_or_default() } else { segs[segs.len() - 2].clone() };
+            if self.cx.ix.enum_names.contains(&t) {
+                self.drop_edge(line, &t, "enum variant used as a value");
+            }
         }
     }
     fn path_call(&mut self, line: usize, p: &syn::ExprPath) {
@@ -309,7 +738,7 @@ impl<'a> BodyV<'a> {
             match self.cx.ix.any.get(&last) {
                 Some(v) => {
                     let v = v.clone();
-                    self.add_callees(&v)
+                    self.add_callees(line, &v)
                 }
                 None => self.unknown(line, format!("qualified path call `{}`", ts(p))),
             }
@@ -321,7 +750,7 @@ impl<'a> BodyV<'a> {
         if segs.len() == 1 {
             if let Some(v) = self.cx.ix.free.get(&last) {
                 let v = v.clone();
-                self.add_callees(&v);
+                self.add_callees(line, &v);
             } else if self.locals.contains(&last) {
                 self.add_ext(format!("callback:{}", last));
             } else if WRITE_PATHS.contains(&last.as_str()) {
@@ -330,6 +759,7 @@ impl<'a> BodyV<'a> {
                 self.add_ext(joined);
             } else if last.chars().next().map(|c| c.is_uppercase()).unwrap_or(false) && self.cx.ix.types.contains(&last) {
                 self.add_ext(format!("ctor:{}", last)); // tuple-struct constructor of a crate type
+                self.drop_edge(line, &last, "tuple-struct constructor");
             } else {
                 self.unknown(line, format!("call of unknown function `{}`", joined));
             }
@@ -339,13 +769,13 @@ impl<'a> BodyV<'a> {
         if self.cx.ix.types.contains(&ty) {
             if let Some(v) = self.cx.ix.typed.get(&(ty.clone(), last.clone())) {
                 let v = v.clone();
-                self.add_callees(&v);
+                self.add_callees(line, &v);
                 return;
             }
             // a trait/derived function of a crate type that is not in the scanned files
             if let Some(v) = self.cx.ix.any.get(&last) {
                 let v = v.clone();
-                self.add_callees(&v);
+                self.add_callees(line, &v);
                 return;
             }
             self.unknown(line, format!("call of `{}`: no such function in the scanned files", joined));
@@ -354,11 +784,14 @@ impl<'a> BodyV<'a> {
         if WRITE_PATHS.contains(&last2.as_str()) || WRITE_PATHS.contains(&joined.as_str()) {
             self.w(line, format!("call of `{}`", joined));
         } else if READ_PATHS.contains(&last2.as_str()) || READ_PATHS.contains(&joined.as_str()) {
+            if OWNING_READ_PATHS.contains(&last2.as_str()) || OWNING_READ_PATHS.contains(&joined.as_str()) {
+                self.owning_reads.push((line, format!("{}()", joined)));
+            }
             self.add_ext(joined);
         } else if let Some(v) = self.cx.ix.any.get(&last) {
             // e.g. `Clone::clone(x)`, `Iterator::next(&mut it)`: by name
             let v = v.clone();
-            self.add_callees(&v);
+            self.add_callees(line, &v);
             if !READ_METHODS.contains(&last.as_str()) {
                 self.unknown(line, format!("call of `{}` through a foreign path", joined));
             }
@@ -417,35 +850,57 @@ impl<'a, 'ast> Visit<'ast> for BodyV<'a> {
             self.place(line, p);
         }
         if !m.is_empty() {
-            self.edge_by_name(m, 1);
+            self.edge_by_name(line, m, 1);
             if m == "eq" || m == "ne" {
-                self.edge_by_name("eq", 1);
-                self.edge_by_name("ne", 1);
+                self.edge_by_name(line, "eq", 1);
+                self.edge_by_name(line, "ne", 1);
             }
             if m == "partial_cmp" {
                 for n in ["lt", "le", "gt", "ge", "cmp"] {
-                    self.edge_by_name(n, 1);
+                    self.edge_by_name(line, n, 1);
                 }
             }
         }
         visit::visit_expr_binary(self, b);
     }
     fn visit_expr_unary(&mut self, u: &'ast syn::ExprUnary) {
+        let line = u.span().start().line;
         match u.op {
             syn::UnOp::Deref(_) => {
-                self.edge_by_name("deref", 0);
-                self.edge_by_name("deref_mut", 0);
+                self.edge_by_name(line, "deref", 0);
+                self.edge_by_name(line, "deref_mut", 0);
             }
-            syn::UnOp::Not(_) => self.edge_by_name("not", 0),
-            syn::UnOp::Neg(_) => self.edge_by_name("neg", 0),
+            syn::UnOp::Not(_) => self.edge_by_name(line, "not", 0),
+            syn::UnOp::Neg(_) => self.edge_by_name(line, "neg", 0),
             _ => {}
         }
         visit::visit_expr_unary(self, u);
     }
     fn visit_expr_index(&mut self, i: &'ast syn::ExprIndex) {
-        self.edge_by_name("index", 1);
-        self.edge_by_name("index_mut", 1);
+        let line = i.span().start().line;
+        self.edge_by_name(line, "index", 1);
+        self.edge_by_name(line, "index_mut", 1);
         visit::visit_expr_index(self, i);
+    }
+    fn visit_expr_struct(&mut self, st: &'ast syn::ExprStruct) {
+        // (a) a struct literal is a value of that type
+        let line = st.span().start().line;
+        for ty in literal_types(&st.path, &self.cx.self_type, &self.cx.ix.typedef_names) {
+            self.drop_edge(line, &ty, "struct literal");
+        }
+        visit::visit_expr_struct(self, st);
+    }
+    fn visit_pat_type(&mut self, pt: &'ast syn::PatType) {
+        // (c) a binding with a declared type
+        let line = pt.span().start().line;
+        let why = format!("binding `{}` declared with type `{}`", ts(&pt.pat), ts(&pt.ty));
+        self.type_drops(line, &pt.ty, &why);
+        visit::visit_pat_type(self, pt);
+    }
+    fn visit_expr_path(&mut self, p: &'ast syn::ExprPath) {
+        let line = p.span().start().line;
+        self.path_value(line, p);
+        visit::visit_expr_path(self, p);
     }
     fn visit_expr_reference(&mut self, r: &'ast syn::ExprReference) {
         if r.mutability.is_some() {
@@ -468,27 +923,37 @@ impl<'a, 'ast> Visit<'ast> for BodyV<'a> {
     fn visit_expr_method_call(&mut self, m: &'ast syn::ExprMethodCall) {
         let line = m.method.span().start().line;
         let name = m.method.to_string();
-        let recv_is_self = path_ident(&m.receiver).as_deref() == Some("self");
-        self.method_call(line, &name, recv_is_self, m.args.len());
+        self.method_call(line, &name, &m.receiver, m.args.len());
         visit::visit_expr_method_call(self, m);
     }
     fn visit_expr_call(&mut self, c: &'ast syn::ExprCall) {
         let line = c.span().start().line;
         match strip(&c.func) {
-            syn::Expr::Path(p) => self.path_call(line, p),
-            other => self.unknown(line, format!("call through a non-path expression `{}`", ts(other))),
+            syn::Expr::Path(p) => {
+                self.path_call(line, p);
+                // the callee path is not a value: visit only its generic arguments and the call's arguments
+                visit::visit_path(self, &p.path);
+            }
+            other => {
+                self.unknown(line, format!("call through a non-path expression `{}`", ts(other)));
+                self.visit_expr(&c.func);
+            }
         }
-        visit::visit_expr_call(self, c);
+        for a in &c.args {
+            self.visit_expr(a);
+        }
     }
     fn visit_expr_for_loop(&mut self, f: &'ast syn::ExprForLoop) {
-        self.edge_by_name("into_iter", 0);
-        self.edge_by_name("next", 0);
+        let line = f.span().start().line;
+        let v = self.cx.for_targets(&f.expr, &self.locals);
+        self.add_callees(line, &v);
         visit::visit_expr_for_loop(self, f);
     }
     fn visit_expr_try(&mut self, t: &'ast syn::ExprTry) {
+        let line = t.span().start().line;
         if let Some(v) = self.cx.ix.any.get("from") {
             let v = v.clone();
-            self.add_callees(&v);
+            self.add_callees(line, &v);
         }
         visit::visit_expr_try(self, t);
     }
@@ -543,38 +1008,94 @@ pub fn param_locals(sig_inputs: &syn::punctuated::Punctuated<syn::FnArg, syn::To
     s.into_iter().collect()
 }
 
-pub fn analyse(decls: &mut Vec<FnDecl>, struct_names: &[String], warnings: &mut Vec<String>) -> CloneAnalysis {
-    let ix = build_index(decls, struct_names);
+pub fn analyse(decls: &mut Vec<FnDecl>, struct_names: &[String], typedefs: &[TypeDef], warnings: &mut Vec<String>) -> (CloneAnalysis, Vec<GlueNode>) {
+    let dm = drop_model(decls, typedefs, warnings);
+    let ix = build_index(decls, struct_names, &dm);
     let mut clone = CloneAnalysis::default();
+    let mut opaque_calls: Vec<Vec<String>> = vec![];
     for k in 0..decls.len() {
-        let (callees, ext, writes, own, warns) = {
+        let (callees, ext, writes, own, warns, drops, fresh, opq) = {
             let d = &decls[k];
-            let cx = Ctx { ix: &ix, qname: d.info.qname.clone(), self_type: d.info.self_type.clone(), recv: d.info.recv, file: d.info.file.clone() };
+            let cx = Ctx { ix: &ix, qname: d.info.qname.clone(), self_type: d.info.self_type.clone(), recv: d.info.recv, file: d.info.file.clone(), typed: typed_env(&d.sig, &d.body) };
             let mut lv = LocalsV { names: d.local_names.iter().cloned().collect(), ref_mut: vec![] };
             lv.visit_block(&d.body);
-            let mut v = BodyV { cx: &cx, locals: lv.names.clone(), callees: vec![], ext: vec![], writes: vec![], own: vec![], warns: vec![] };
+            let mut v = new_body_v(&cx, lv.names.clone());
             for (line, name) in &lv.ref_mut {
                 v.unknown(*line, format!("`ref mut {}` pattern", name));
             }
+            // (c) parameters taken by value (a by-value receiver included) may be dropped here
+            for t in &d.info.params_owned {
+                v.drop_edge(d.info.line, t, "parameter taken by value");
+            }
             v.visit_block(&d.body);
+            // (e) values of unknown type copied out from behind a pointer
+            if !v.owning_reads.is_empty() {
+                let mut mv = MentionedV { names: &ix.typedef_names, out: BTreeSet::new() };
+                mv.visit_signature(&d.sig);
+                mv.visit_block(&d.body);
+                if let Some(t) = &d.info.self_type {
+                    mv.out.insert(t.clone());
+                }
+                let reads = v.owning_reads.clone();
+                for (line, what) in reads {
+                    for t in &mv.out {
+                        for u in ix.glue_reach_any.get(t).cloned().unwrap_or_default() {
+                            v.drop_edge(line, &u, &format!("`{}` copies a value of an unwritten type out from behind a pointer; reachable from `{}`", what, t));
+                        }
+                    }
+                }
+            }
             if d.info.self_type.as_deref() == Some(CACHE_TYPE) && d.info.trait_name.as_deref() == Some("Clone") && d.info.name == "clone" && !clone.found {
                 clone = clone_split(&cx, d, &lv.names);
                 v.warns.extend(clone_warnings(&clone, &cx));
             }
-            (v.callees, v.ext, v.writes, v.own, v.warns)
+            (v.callees, v.ext, v.writes, v.own, v.warns, v.drops, v.fresh_drops, v.opaque_calls)
         };
         let d = &mut decls[k];
         d.info.callees = callees;
         d.info.ext_calls = ext;
         d.info.writes = writes;
         d.info.own_writes = own;
+        d.info.drop_sites = drops;
+        d.info.fresh_drops = fresh;
+        opaque_calls.push(opq);
         warnings.extend(warns);
+    }
+    // (b), hidden return types: the caller may drop whatever the callee's body may hold (least fixed point)
+    loop {
+        let mut grew = false;
+        for k in 0..decls.len() {
+            for q in opaque_calls[k].clone() {
+                let inherited: Vec<String> = decls.iter().filter(|d| d.info.qname == q).flat_map(|d| d.info.callees.iter().filter(|c| c.starts_with(GLUE_PREFIX)).cloned().collect::<Vec<_>>()).collect();
+                for g in inherited {
+                    if !decls[k].info.callees.contains(&g) {
+                        decls[k].info.callees.push(g.clone());
+                        decls[k].info.drop_sites.push(format!("{} - the return type of `{}` hides a type: whatever its body may hold", g, q));
+                        grew = true;
+                    }
+                }
+            }
+        }
+        if !grew {
+            break;
+        }
     }
     if !clone.found {
         warnings.push("no `impl Clone for LruCache` found: the clone@source node is recorded as writing".into());
         clone.src_writes.push("UNRECOGNISED: Clone::clone of LruCache not found".into());
+    } else {
+        // the source half inherits in the same way
+        for q in clone.src_opaque_calls.clone() {
+            for d in decls.iter().filter(|d| d.info.qname == q) {
+                for g in d.info.callees.iter().filter(|c| c.starts_with(GLUE_PREFIX)) {
+                    if !clone.src_callees.contains(g) {
+                        clone.src_callees.push(g.clone());
+                    }
+                }
+            }
+        }
     }
-    clone
+    (clone, dm.nodes)
 }
 
 fn clone_warnings(_c: &CloneAnalysis, _cx: &Ctx) -> Vec<String> {
@@ -598,6 +1119,8 @@ struct CloneV<'a> {
     decls_plain_ctor: &'a dyn Fn(&syn::Expr) -> bool,
     env: BTreeMap<String, Root>,
     out: CloneAnalysis,
+    /// scanned types the function mentions (for values of unwritten type, rule (e))
+    mentioned: BTreeSet<String>,
 }
 
 fn root_expr(e: &syn::Expr) -> Option<&syn::Expr> {
@@ -684,15 +1207,7 @@ impl<'a> CloneV<'a> {
             None => Root::Src, // not understood: treat as acting on the source
         }
     }
-    fn resolve_method(&self, name: &str, recv_is_self: bool, nargs: usize) -> Vec<String> {
-        if recv_is_self {
-            if let Some(t) = &self.cx.self_type {
-                let v = self.cx.ix.typed_method(t, name, nargs);
-                if !v.is_empty() {
-                    return v;
-                }
-            }
-        }
+    fn by_name(&self, name: &str, nargs: usize) -> Vec<String> {
         self.cx.ix.methods_named(name, nargs)
     }
     fn src_callees(&mut self, v: Vec<String>) {
@@ -700,6 +1215,69 @@ impl<'a> CloneV<'a> {
             if !self.out.src_callees.contains(&q) {
                 self.out.src_callees.push(q);
             }
+        }
+    }
+    /// an implicit drop attributed to the source half: the value may carry handles of the source
+    fn src_drop(&mut self, line: usize, ty: &str, why: &str) {
+        if self.cx.ix.glue.contains(ty) {
+            self.src_callees(vec![glue_node(ty)]);
+            self.out.src_drop_sites.push(format!("L{}: {} - {}", line, ty, why));
+        }
+    }
+    /// an implicit drop of a value that was built from plain values only: a write into fresh memory
+    fn fresh_drop(&mut self, line: usize, ty: &str, why: &str) {
+        if self.cx.ix.glue.contains(ty) {
+            let d = format!("L{}: implicit drop of a `{}` - {}", line, ty, why);
+            if !self.out.fresh_sites.contains(&d) {
+                self.out.fresh_sites.push(d);
+            }
+        }
+    }
+    /// (b) for the values the candidates return.  `fresh`: the call is rooted in fresh/plain values and receives no
+    /// source-derived argument, so what it returns cannot carry a handle of the source.
+    fn ret_drops(&mut self, line: usize, cands: &[String], fresh: bool) {
+        for q in cands {
+            let Some((owned, opaque, _)) = self.cx.ix.ret.get(q).cloned() else { continue };
+            let is_clone = self.cx.ix.clone_q.as_deref() == Some(q.as_str());
+            for t in &owned {
+                if fresh {
+                    self.fresh_drop(line, t, &format!("returned by `{}`, which is called on plain / fresh values only", q));
+                } else if is_clone && t == CACHE_TYPE {
+                    self.fresh_drop(line, t, &format!("returned by `{}`: the cache a nested clone built", q));
+                } else {
+                    self.src_drop(line, t, &format!("value returned by `{}`", q));
+                }
+            }
+            if opaque && !fresh && !self.out.src_opaque_calls.contains(q) {
+                self.out.src_opaque_calls.push(q.clone());
+            }
+        }
+    }
+    fn type_drops(&mut self, line: usize, ty: &syn::Type, fresh: bool, why: &str) {
+        let mut o = Owned::default();
+        owned_idents(ty, self.cx.self_type.as_deref(), &BTreeMap::new(), &mut o, 0);
+        for t in o.idents {
+            if fresh {
+                self.fresh_drop(line, &t, why);
+            } else {
+                self.src_drop(line, &t, why);
+            }
+        }
+    }
+    /// (e) in the source half
+    fn owning_read(&mut self, line: usize, what: &str) {
+        for t in self.mentioned.clone() {
+            for u in self.cx.ix.glue_reach_any.get(&t).cloned().unwrap_or_default() {
+                self.src_drop(line, &u, &format!("`{}` copies a value of an unwritten type out from behind a pointer; reachable from `{}`", what, t));
+            }
+        }
+    }
+    fn check_return(&mut self, e: &syn::Expr) {
+        if self.kind_of_value(e) != Root::Fresh {
+            self.out.returns_fresh = false;
+            self.out.return_sites.push(format!("L{}: `{}` is not a fresh local or a plain constructor call", e.span().start().line, ts(e)));
+        } else {
+            self.out.return_sites.push(format!("L{}: `{}`", e.span().start().line, ts(e)));
         }
     }
 }
@@ -713,6 +1291,10 @@ impl<'a, 'ast> Visit<'ast> for CloneV<'a> {
                 self.visit_expr(d);
             }
             let k = self.kind_of_value(&init.expr);
+            if let syn::Pat::Type(pt) = &l.pat {
+                let why = format!("binding `{}` declared with type `{}`", ts(&pt.pat), ts(&pt.ty));
+                self.type_drops(l.span().start().line, &pt.ty, k == Root::Fresh, &why);
+            }
             let mut names = BTreeSet::new();
             pat_idents(&l.pat, &mut names);
             for n in names {
@@ -722,12 +1304,54 @@ impl<'a, 'ast> Visit<'ast> for CloneV<'a> {
                 self.env.insert(n, k);
             }
         } else {
+            if let syn::Pat::Type(pt) = &l.pat {
+                let why = format!("binding `{}` declared with type `{}`", ts(&pt.pat), ts(&pt.ty));
+                self.type_drops(l.span().start().line, &pt.ty, false, &why);
+            }
             let mut names = BTreeSet::new();
             pat_idents(&l.pat, &mut names);
             for n in names {
                 self.env.insert(n, Root::Plain);
             }
         }
+    }
+    fn visit_expr_struct(&mut self, st: &'ast syn::ExprStruct) {
+        // a struct literal inside clone: counted for the source half whatever it is made of
+        let line = st.span().start().line;
+        for ty in literal_types(&st.path, &self.cx.self_type, &self.cx.ix.typedef_names) {
+            self.src_drop(line, &ty, "struct literal");
+        }
+        visit::visit_expr_struct(self, st);
+    }
+    fn visit_expr_path(&mut self, p: &'ast syn::ExprPath) {
+        // a scanned function used as a value (`.map(Self::f)`): as good as called, judged as acting on the source
+        let line = p.span().start().line;
+        let locals: BTreeSet<String> = self.env.keys().cloned().collect();
+        if p.qself.is_none() && p.path.segments.len() == 1 {
+            let id = p.path.segments[0].ident.to_string();
+            if !locals.contains(&id) && id != "self" && self.cx.ix.typedef_names.contains(&id) {
+                self.src_drop(line, &id, "unit struct / constructor used as a value");
+            }
+        }
+        if let Some(v) = self.cx.resolve_path_exact(p, &locals) {
+            self.ret_drops(line, &v, false);
+            self.src_callees(v);
+        } else if p.qself.is_none() && p.path.segments.len() >= 2 {
+            let id = p.path.segments[p.path.segments.len() - 2].ident.to_string();
+            let t = if id == "Self" { self.cx.self_type.clone().unwrap_or_default() } else { id };
+            if self.cx.ix.enum_names.contains(&t) {
+                self.src_drop(line, &t, "enum variant used as a value");
+            }
+        }
+        visit::visit_expr_path(self, p);
+    }
+    fn visit_expr_return(&mut self, r: &'ast syn::ExprReturn) {
+        if let Some(e) = &r.expr {
+            self.check_return(e);
+        } else {
+            self.out.returns_fresh = false;
+        }
+        visit::visit_expr_return(self, r);
     }
     fn visit_expr_assign(&mut self, a: &'ast syn::ExprAssign) {
         let line = a.span().start().line;
@@ -764,11 +1388,12 @@ impl<'a, 'ast> Visit<'ast> for CloneV<'a> {
             let (s, _) = self.mentions(&b.left);
             let (s2, _) = self.mentions(&b.right);
             if s || s2 {
-                let mut v = self.resolve_method(m, false, 1);
+                let mut v = self.by_name(m, 1);
                 if m == "eq" || m == "ne" {
-                    v.extend(self.resolve_method("eq", false, 1));
-                    v.extend(self.resolve_method("ne", false, 1));
+                    v.extend(self.by_name("eq", 1));
+                    v.extend(self.by_name("ne", 1));
                 }
+                self.ret_drops(line, &v, false);
                 self.src_callees(v);
             }
         }
@@ -791,12 +1416,17 @@ impl<'a, 'ast> Visit<'ast> for CloneV<'a> {
     fn visit_expr_method_call(&mut self, m: &'ast syn::ExprMethodCall) {
         let line = m.method.span().start().line;
         let name = m.method.to_string();
-        let recv_is_self = path_ident(&m.receiver).as_deref() == Some("self");
         let root = self.kind_of_root(&m.receiver);
         let args_src = m.args.iter().any(|a| self.mentions(a).0);
-        let cands = self.resolve_method(&name, recv_is_self, m.args.len());
+        let cands = self.cx.resolve_method(&m.receiver, &name, m.args.len());
         let is_w = WRITE_METHODS.contains(&name.as_str());
         let unknown = cands.is_empty() && !READ_METHODS.contains(&name.as_str()) && !is_w;
+        // what the call returns may be dropped here; it can carry a handle of the source unless the call
+        // is rooted in fresh / plain values and receives nothing derived from the source
+        self.ret_drops(line, &cands, root != Root::Src && !args_src);
+        if cands.is_empty() && OWNING_READ_METHODS.contains(&name.as_str()) && (root == Root::Src || args_src) {
+            self.owning_read(line, &format!(".{}()", name));
+        }
         match root {
             Root::Src => {
                 if is_w {
@@ -819,6 +1449,14 @@ impl<'a, 'ast> Visit<'ast> for CloneV<'a> {
                         self.src_callees(cands);
                     } else {
                         self.out.residual.push(d);
+                        // the callee runs on the fresh cache but holds source-derived values: its explicit code is what
+                        // Layer B models; the drops it performs implicitly are in no model and are attributed to the source half
+                        for q in cands {
+                            if !self.out.residual_callees.contains(&q) {
+                                self.out.residual_callees.push(q.clone());
+                            }
+                            self.src_callees(vec![format!("{}{}", q, DROPS_SUFFIX)]);
+                        }
                     }
                 }
             }
@@ -831,7 +1469,7 @@ impl<'a, 'ast> Visit<'ast> for CloneV<'a> {
         let plain_ctor = (self.decls_plain_ctor)(&syn::Expr::Call(c.clone()));
         if args_src && !plain_ctor {
             // source-derived data handed to a function that could keep pointers into it: judge the callee as acting on the source
-            let mut tmp = BodyV { cx: self.cx, locals: self.env.keys().cloned().collect(), callees: vec![], ext: vec![], writes: vec![], own: vec![], warns: vec![] };
+            let mut tmp = new_body_v(self.cx, self.env.keys().cloned().collect());
             match strip(&c.func) {
                 syn::Expr::Path(p) => tmp.path_call(line, p),
                 other => tmp.unknown(line, format!("call through a non-path expression `{}`", ts(other))),
@@ -839,16 +1477,47 @@ impl<'a, 'ast> Visit<'ast> for CloneV<'a> {
             for w in tmp.writes {
                 self.out.src_writes.push(format!("{} - with source-derived arguments", w));
             }
+            for d in tmp.drops {
+                self.out.src_drop_sites.push(format!("{} - with source-derived arguments", d));
+            }
+            for d in tmp.fresh_drops {
+                if !self.out.fresh_sites.contains(&d) {
+                    self.out.fresh_sites.push(d);
+                }
+            }
+            for q in tmp.opaque_calls {
+                if !self.out.src_opaque_calls.contains(&q) {
+                    self.out.src_opaque_calls.push(q);
+                }
+            }
+            for (l, what) in tmp.owning_reads {
+                self.owning_read(l, &what);
+            }
             self.src_callees(tmp.callees);
         } else {
             self.out.fresh_sites.push(format!("L{}: `{}(..)`{}", line, ts(&c.func), if plain_ctor { " - constructor taking only plain values" } else { "" }));
+            // what it returns is built from plain values only
+            if let syn::Expr::Path(p) = strip(&c.func) {
+                let locals: BTreeSet<String> = self.env.keys().cloned().collect();
+                if let Some(v) = self.cx.resolve_path_exact(p, &locals) {
+                    self.ret_drops(line, &v, true);
+                }
+            }
         }
-        visit::visit_expr_call(self, c);
+        // the callee path is not a value: only its generic arguments and the call's arguments are visited
+        match strip(&c.func) {
+            syn::Expr::Path(p) => visit::visit_path(self, &p.path),
+            _ => self.visit_expr(&c.func),
+        }
+        for a in &c.args {
+            self.visit_expr(a);
+        }
     }
     fn visit_expr_for_loop(&mut self, f: &'ast syn::ExprForLoop) {
         if self.mentions(&f.expr).0 {
-            let mut v = self.resolve_method("into_iter", false, 0);
-            v.extend(self.resolve_method("next", false, 0));
+            let locals: BTreeSet<String> = self.env.keys().cloned().collect();
+            let v = self.cx.for_targets(&f.expr, &locals);
+            self.ret_drops(f.span().start().line, &v, false);
             self.src_callees(v);
             let mut names = BTreeSet::new();
             pat_idents(&f.pat, &mut names);
@@ -864,6 +1533,10 @@ impl<'a, 'ast> Visit<'ast> for CloneV<'a> {
     fn visit_expr_closure(&mut self, c: &'ast syn::ExprClosure) {
         // closure parameters receive whatever the adaptor feeds them; be conservative: source
         for p in &c.inputs {
+            if let syn::Pat::Type(pt) = p {
+                let why = format!("closure parameter `{}` declared with type `{}`", ts(&pt.pat), ts(&pt.ty));
+                self.type_drops(p.span().start().line, &pt.ty, false, &why);
+            }
             let mut names = BTreeSet::new();
             pat_idents(p, &mut names);
             for n in names {
@@ -896,8 +1569,26 @@ fn clone_split(cx: &Ctx, d: &FnDecl, _locals: &BTreeSet<String>) -> CloneAnalysi
         }
         false
     };
-    let mut v = CloneV { cx, decls_plain_ctor: &is_plain_ctor, env: BTreeMap::new(), out: CloneAnalysis { found: true, ..Default::default() } };
+    let mut mv = MentionedV { names: &cx.ix.typedef_names, out: BTreeSet::new() };
+    mv.visit_signature(&d.sig);
+    mv.visit_block(&d.body);
+    if let Some(t) = &cx.self_type {
+        mv.out.insert(t.clone());
+    }
+    let mut v = CloneV { cx, decls_plain_ctor: &is_plain_ctor, env: BTreeMap::new(), out: CloneAnalysis { found: true, returns_fresh: true, ..Default::default() }, mentioned: mv.out };
+    // parameters by value (none for `clone(&self)`; whatever is there is counted for the source half)
+    for t in &d.info.params_owned {
+        v.src_drop(d.info.line, t, "parameter taken by value");
+    }
     v.visit_block(&d.body);
+    // the value clone returns: the tail expression (explicit `return`s are checked where they occur)
+    match d.body.stmts.last() {
+        Some(syn::Stmt::Expr(e, None)) => v.check_return(e),
+        _ => {
+            v.out.returns_fresh = false;
+            v.out.return_sites.push("the body has no tail expression".into());
+        }
+    }
     v.out
 }
 
